@@ -48,6 +48,31 @@ CLAIMED = {
         "Trusts pv/same.py equality and the reference's union-member trace used for the ambiguous-union exclusion; excluded cases are counted in the evidence.",
         "DESIGN.md section 5, C05",
     ),
+    'C06': (
+        "Hypothesis type-directed generation of typed values (converted and natively built); fixed-point / idempotence oracle on convert and on dataclass constructors",
+        "For typed values x of generated types - results of conversions and natively built equivalents (Fraction, Decimal, datetime, paths, "
+        "patterns, sets, deques, enum members, dataclass instances, ValueOrList, arrays, pane.types.Range) - convert(x, T) succeeds and is "
+        "the same value with the same types, and a dataclass holding a field of type T accepts x unchanged. Known findings D9, D11, D31 "
+        "are reported as KNOWN-FINDING.",
+        "Trusts pv/same.py and the reference's union-member trace for the ambiguous-union exclusion; external/adjacent tagged unions excluded by the statement.",
+        "DESIGN.md section 5, C06",
+    ),
+    'C07': (
+        "Hypothesis multi-fault mutation of type-directed values; metamorphic oracle by structural induction (each child tree = the element type's own tree) + class model for missing/extra/duplicate sets",
+        "For every rejected generated (type, value): product nodes are keyed by exactly the positions/keys whose element is rejected on its own and "
+        "each child equals that element's own tree; missing/extra equal the model's sets; unions report one alternative per built member in order, "
+        "each equal to the member's own tree; tagged unions report the selected variant's tree; leaves record the offending sub-value.",
+        "Element trees come from pane itself (composition is what is checked; verdicts are C01's). Trusts pv/errtree.py tree equality and the class model's key tables.",
+        "DESIGN.md section 5, C07",
+    ),
+    'C08': (
+        "Hypothesis generation of reachable error trees (multi-fault mutations); totality, determinism and containment oracle over the rendered text",
+        "Every error tree reachable from the generator is rendered: rendering returns, is repeatable, a deep copy renders to the same lines, and the "
+        "text contains every path component in nesting order followed by each leaf's expectation, every missing/unexpected/duplicate name, the "
+        "offending value of every leaf outside a sum (one per sum), and the message of every causing exception.",
+        "Containment is substring-in-order, so wording/layout changes are not flagged; determinism across PYTHONHASHSEED values is not asserted.",
+        "DESIGN.md section 5, C08",
+    ),
     'C20': (
         "exhaustive enumeration of a finite name set + Hypothesis search, against an independent canonical renderer",
         "Every 1-3 word name over a 3-letter alphabet (47 988 names) is swept exhaustively through all 5 styles and all 25 style "
